@@ -323,8 +323,6 @@ def oracle_brl(args, out):
 
 def oracle_absrep(args, out):
     style_auto, intr, cbx, cby, cbw, cbh, b = args
-    if b[0] == 'auto' and b[1] == 'auto' and intr[0] is None and intr[1] is None and intr[2] is not None:
-        return None        # known finding abs-replaced-ratio-only-width (reported through its own replay)
     return _judge_used_size('absolute_replaced', rbox(b), intr, [cbw, False], style_auto, out)
 
 
@@ -578,7 +576,50 @@ def oracle_dedupe(args, out):
     for o in objs:
         if isinstance(o, list) and o[0] == 'img' and val(o[3]) != max(ratios[o[1]]):
             return f'image {o[1]} embedded with dpi ratio {o[3]}, the largest requested is {max(ratios[o[1]])}'
+    if 'tree' in items:
+        at = items.index('tree')
+        return scope_undefined(draws, items[at + 1], items[at + 2])
     return None
+
+
+def scope_undefined(draws, xobjects, patterns, path='page'):
+    """Every image painted on a content stream (`/name Do`) must be named in the /Resources /XObject dictionary
+    of THAT stream — the page's, or the group's / tiling pattern's own one — else the operator paints nothing.
+    `draws`: what is drawn on the stream, in order; `xobjects` / `patterns`: the stream's resource entries as
+    read back (`tree` of the `dedupe` output / of the PDF).  -> text of the first undefined use, or None."""
+    names = [x for x in xobjects if not isinstance(x, list)]
+    groups = [x for x in xobjects if isinstance(x, list)]
+    gi = pi = 0
+    for d in draws:
+        if d[0] == 'i':
+            name = f'i{d[1]}{1 if d[2] is True else 0}'
+            if name not in [str(n) for n in names]:
+                return (f'image {name} is painted in the content stream of {path} but the /Resources /XObject of that '
+                        f'stream does not define it (defined there: {[str(n) for n in names]})')
+        elif d[0] == 'g':
+            if gi >= len(groups):
+                return f'a transparency group drawn on {path} has no XObject entry'
+            g = groups[gi]
+            gi += 1
+            what = scope_undefined(d[1:], g[1], g[2], f'{path} > group {g[0]}')
+            if what:
+                return what
+        else:
+            if pi >= len(patterns):
+                return f'a tiling pattern used on {path} has no Pattern entry'
+            g = patterns[pi]
+            pi += 1
+            what = scope_undefined(d[1:], g[1], g[2], f'{path} > pattern {g[0]}')
+            if what:
+                return what
+    return None
+
+
+def oracle_restree(args, out):
+    if out.startswith('err'):
+        return f'reading the resources back raised {out[4:]}'
+    items = sx.loads_line(out)
+    return scope_undefined(args[0], items[1], items[2])
 
 
 def _flat_images(draws):
@@ -779,6 +820,70 @@ def oracle_svgratio(args, out):
     return _judge_ratio('preserve_ratio', viewbox, _par(par), width, height, out)
 
 
+def oracle_svgratioc(args, out):
+    """A nested element under an ancestor that has its own preserveAspectRatio: the attribute is not a
+    property and is not inherited (SVG 1.1 §7.8): the element's own value, else xMidYMid meet."""
+    viewbox, chain, marker, width, height = args
+    if marker is not None:
+        return None
+    own = chain[-1]
+    par = 'xMidYMid' if own is None else _par(own)
+    if par == 'inherit':
+        return None
+    return _judge_ratio('preserve_ratio (nested element)', viewbox, par, width, height, out)
+
+
+SVG_NOT_INHERITED = ('preserveAspectRatio', 'viewBox', 'width', 'height', 'x', 'y', 'transform', 'opacity', 'id',
+                     'clip-path', 'mask', 'filter', 'overflow', 'href')
+
+
+def oracle_svgattr(args, out):
+    """SVG 1.1 property index / attribute definitions: the geometry attributes of a viewport-establishing
+    element (and opacity, id, clip-path, mask, filter, overflow, href) apply to that element only; presentation
+    attributes marked `Inherited: yes` (fill-opacity, stroke-width, font-size, visibility, …) reach the descendants
+    that do not set them; `inherit` takes the parent's value."""
+    key, chain = args
+    key = _par(key)
+    if out.startswith('err'):
+        return f'reading {key} on a nested SVG element raised {out[4:]}'
+    values = [None if v is None else _par(v) for v in chain]
+    inherited = key in ('fill-opacity', 'stroke-width', 'font-size', 'visibility', 'stroke-linecap', 'fill-rule',
+                        'text-anchor')
+    if not inherited and key not in SVG_NOT_INHERITED:
+        return None
+    current = values[0]
+    for own in values[1:]:
+        if own == 'inherit':
+            pass                                   # the parent's value
+        elif own is not None:
+            current = own
+        elif not inherited:
+            current = None
+    items = sx.loads_line(out)
+    got = None if items[1] == 'none' else _par(items[1])
+    if got != current:
+        return (f'SVG attribute {key} written {values} on nested elements: the innermost element sees {got!r}, '
+                f'expected {current!r} ({"inherited" if inherited else "not inherited"})')
+    return None
+
+
+def oracle_svgimagee(args, out):
+    """An <image> element: without a link nothing is fetched and nothing is drawn; with one the loader is asked
+    once; a loaded image is drawn in the box of `oracle_svgimage`."""
+    href, loaded, width, height, iw, ih, ir = args
+    if out.startswith('err:AssertionError'):
+        return 'svg <image>: the image loader was asked for an empty / missing URL'
+    if not href:
+        return None if out == 'ok false none' else f'svg <image> without href: {out}'
+    if not loaded:
+        return None if out == 'ok true none' else f'svg <image> whose image cannot be loaded: {out}'
+    if out.startswith('ok true '):
+        return oracle_svgimage([width, height, iw, ih, ir], 'ok ' + out[len('ok true '):])
+    if out.startswith('err'):
+        return oracle_svgimage([width, height, iw, ih, ir], out)
+    return f'svg <image> with href: {out}'
+
+
 def oracle_svgroot(args, out):
     viewbox, iw, ih, par, width, height = args
     return _judge_ratio('SVG.draw (root <svg>)', viewbox, _par(par), width, height, out)
@@ -825,9 +930,13 @@ def oracle_embed(args, out):
         normal = 'RGB'
     else:
         normal = mode
+    if out.startswith('err'):
+        # whatever the image: the loader reports a problem as "image not loaded", it never aborts the rendering
+        return (f'get_image_from_uri raised {out[4:]} on a {fmt} image of mode {mode} (transparency info: '
+                f'{transparency}) instead of embedding it or reporting a loading error')
     if normal not in ('L', 'LA', 'RGB', 'RGBA') and not (jpeg_source and normal == 'CMYK'):
-        return None        # I;16, CMYK outside JPEG, PA, F: known findings grey16-embedded-as-rgb8 / unwritable-mode-crash
-    if out.startswith('err') or out == 'not-loaded':
+        return None        # I;16: known finding grey16-embedded-as-rgb8; CMYK outside JPEG, PA, F: not loaded
+    if out == 'not-loaded':
         return f'loading a {fmt} image of mode {mode} (transparency info: {transparency}) failed: {out}'
     (got_mode, jpeg, reencoded, invert, color_space, filter_, colors3, smask, decode, pixels) = out.split()[1:]
     alpha = normal in ('LA', 'RGBA')
@@ -853,20 +962,50 @@ def oracle_embed(args, out):
     return None
 
 
+def oracle_pngdata(args, out):
+    """PNG specification 5.3 / 10.1 on the bytes of the file: after the 8-byte signature, chunks of
+    length(4) type(4) data(length) crc(4); the image data is the concatenation of the IDAT contents.  Judged
+    when the file is such a sequence of complete chunks; otherwise nothing is said."""
+    data = bytes(int(b) for b in args[0])
+    position, want, complete = 8, b'', len(data) >= 8
+    while complete and position < len(data):
+        if position + 8 > len(data):
+            complete = False
+            break
+        length = int.from_bytes(data[position:position + 4], 'big')
+        kind = data[position + 4:position + 8]
+        if position + 12 + length > len(data):
+            complete = False
+            break
+        if kind == b'IDAT':
+            want += data[position + 8:position + 8 + length]
+        position += 12 + length
+    if not complete:
+        return None
+    if out.startswith('err'):
+        return f'_get_png_data raised {out[4:]} on a well-formed PNG chunk sequence'
+    got = bytes(int(v) for v in sx.loads_line(out)[1])
+    if got != want:
+        return (f'_get_png_data returned {len(got)} bytes {list(got)[:24]}, the IDAT chunks of the file hold '
+                f'{len(want)} bytes {list(want)[:24]}')
+    return None
+
+
 def oracle_orient(args, out):
-    """css-images-3 image-orientation on a pixel grid: rotate to the right, then flip horizontally.
-    Quarter turns are the known finding image-orientation-rotates-ccw: not judged."""
+    """css-images-3 image-orientation on a pixel grid: rotate to the right by the angle, then flip
+    horizontally (stated on the pixel coordinates, without Pillow)."""
     kind, angle, flip, rows = args
     if out.startswith('err'):
         return f'rotate_pillow_image raised {out[4:]}'
-    if kind != 'turn':
-        want = rows
-    elif angle in (0, 180):
-        want = [row[::-1] for row in rows[::-1]] if angle == 180 else rows
+    want = rows
+    if kind == 'turn':
+        if angle not in (0, 90, 180, 270):
+            return None
+        for _ in range(int(angle) // 90):
+            # one quarter turn to the right: the first column, read bottom-up, becomes the first row
+            want = [[want[len(want) - 1 - y][x] for y in range(len(want))] for x in range(len(want[0]))]
         if flip:
             want = [row[::-1] for row in want]
-    else:
-        return None
     items = sx.loads_line(out)
     got = [[Fraction(v) for v in row] for row in items[4]]
     if got != [[Fraction(v) for v in row] for row in want]:
@@ -944,8 +1083,11 @@ ORACLES = {
     'brw': lambda a, o: oracle_decorated_width(a, o, 'block_replaced_width'),
     'rbh': oracle_rbh, 'blw': oracle_blw, 'blwcore': oracle_blw,
     'bglayer': oracle_bglayer, 'bgdraw': oracle_bgdraw, 'dedupe': oracle_dedupe, 'imgcount': oracle_imgcount,
+    'restree': oracle_restree,
     'drawrep': oracle_drawrep, 'rdraw': oracle_rdraw, 'docimg': oracle_docimg, 'docsvg': oracle_docsvg,
     'svgintr': oracle_svgintr, 'embed': oracle_embed, 'svgratio': oracle_svgratio, 'svgroot': oracle_svgroot,
+    'svgratioc': oracle_svgratioc, 'svgattr': oracle_svgattr, 'pngdata': oracle_pngdata,
+    'svgimagee': oracle_svgimagee,
     'svgimage': oracle_svgimage, 'orient': oracle_orient, 'orientangle': oracle_orientangle,
     'prefwidth': oracle_prefwidth,
 }
